@@ -1,6 +1,7 @@
-(* Model of GenericCallAdapter.assign (src/inline_snapshot/_adapter/generic_call_adapter.py:116-262) for the adapters shipped
-   with inline-snapshot (dataclasses, attrs, pydantic, namedtuple-likes: `arguments()` returns NO positional arguments and
-   one keyword argument per field, flagged `is_default` when the value equals the field's default), together with the
+(* Model of GenericCallAdapter.assign (src/inline_snapshot/_adapter/generic_call_adapter.py:116-262) for the keyword-style adapters
+   shipped with inline-snapshot (dataclasses, attrs, pydantic: `arguments()` returns NO positional arguments and one keyword
+   argument per field, flagged `is_default` when the value equals the field's default; namedtuples: the default-valued fields
+   are left out instead, which assign treats like `is_default` - fd_default covers both), together with the
    order in which _change.apply_all / generic_sequence_update place inserted arguments (_change.py:268-315):
      - every positional argument of the old call is deleted (category fix): its field comes back as a keyword argument;
      - an old keyword argument whose field now holds its default is deleted - category update when its value is unchanged,
@@ -12,7 +13,8 @@
        matched keywords are assigned in place by the adapter of their value (Model/TreeAssign.v: nested lists / tuples).
    The result is the list of arguments in text order.
    Modelled scope: every keyword of the old call names a field shown by repr; no star-arguments; adapters without
-   positional `arguments()`.  Executable definitions only. *)
+   positional `arguments()` (defaultdict(factory, {...}) has two positional ones and no keywords: its dict argument is
+   Model/DictAssign.v).  Executable definitions only. *)
 From Coq Require Import List ZArith Bool Arith.
 Import ListNotations.
 From V Require Import Model.SnapOps Model.TreeAssign.
